@@ -91,21 +91,125 @@ def rot_spec(rng, dim=None, n=1):
     return {'kind': 'matrix', 'values': [[hexf(float(c)) for c in quat_matrix(qt)] for qt in qs], 'dim': dim}, qs
 
 
-def b_matrix(rng):
-    kap = rng.choice([1.0, 3.0, 10.0, 1e2, 1e3, 1e4, 1e5, 1e6])
+# B matrices.  The property quantifies over EVERY non-singular B (condition number up to 1e6): the sign of det(B) is
+# only the handedness of the reciprocal basis (b*, c* interchanged; l -> -l; a mirrored crystal frame), so a B is drawn
+# as  kind (how the numbers are made) x hand (which re-labelling / mirror is applied to it):
+#   kind  diag          diag(d) (I + N), N small, mostly upper triangular (det > 0 before the hand)
+#         busing-levy   the Busing-Levy B of a triclinic cell a, b, c, alpha, beta, gamma (upper triangular, det > 0)
+#         generic       O1 diag(d) O2 with O1, O2 random rotations: dense, kappa_2 = max d / min d
+#   hand  right         as made
+#         cyclic        columns cyclically permuted (re-labelled, still right-handed: control)
+#         swap          two columns interchanged (two reciprocal axes swapped)        det < 0
+#         invert        one column negated (h, k or l -> its negative)                 det < 0
+#         negate        -B (all three axes inverted)                                   det < 0
+#         row-swap      two rows interchanged (mirrored Cartesian crystal frame)       det < 0
+B_KINDS = ['diag', 'busing-levy', 'generic']
+B_HANDS = ['right', 'cyclic', 'swap', 'invert', 'negate', 'row-swap']
+B_HAND_WEIGHTS = [4, 1, 2, 2, 1, 1]
+KAPPAS = [1.0, 3.0, 10.0, 1e2, 1e3, 1e4, 1e5, 1e6]
+
+
+def _lengths(rng, kap):
     base = loguniform(rng, 1e-3, 1.0)               # reciprocal lattice lengths ~ 1/(1..1000 angstrom): large cells have tiny det(B)
     if rng.random() < 0.5:
         d = [base, base * kap ** rng.random(), base * kap]
     else:
         d = [base, base / kap ** rng.random(), base / kap]
     rng.shuffle(d)
+    return d
+
+
+def _b_diag(rng, kap):
+    d = _lengths(rng, kap)
     N = [[0.0] * 3 for _ in range(3)]
     for i, j in ((0, 1), (0, 2), (1, 2)):
         N[i][j] = rng.uniform(-0.3, 0.3)
     if rng.random() < 0.3:                           # not only upper-triangular
         N[2][0] = rng.uniform(-0.2, 0.2)
     # diag(d) * (I + N)
-    return [d[i] * ((1.0 if i == j else 0.0) + N[i][j]) for i in range(3) for j in range(3)], kap
+    return [d[i] * ((1.0 if i == j else 0.0) + N[i][j]) for i in range(3) for j in range(3)]
+
+
+def _b_busing_levy(rng, kap):
+    """Busing & Levy (1967) B of the cell with reciprocal lengths as in _lengths (direct lengths 1/d) and angles 60..120 deg"""
+    while True:
+        al, be, ga = (math.radians(rng.choice([90.0, rng.uniform(60.0, 120.0)])) for _ in range(3))
+        ca, cb, cg = math.cos(al), math.cos(be), math.cos(ga)
+        v2 = 1 - ca * ca - cb * cb - cg * cg + 2 * ca * cb * cg
+        if v2 > 0.05:
+            break
+    a, b, c = (1.0 / x for x in _lengths(rng, kap))
+    V = a * b * c * math.sqrt(v2)
+    sa, sb, sg = math.sin(al), math.sin(be), math.sin(ga)
+    ar, br, cr = b * c * sa / V, a * c * sb / V, a * b * sg / V
+    cbr, cgr = (ca * cg - cb) / (sa * sg), (ca * cb - cg) / (sa * sb)
+    sbr, sgr = math.sqrt(1 - cbr * cbr), math.sqrt(1 - cgr * cgr)
+    return [ar, br * cgr, cr * cbr,
+            0.0, br * sgr, -cr * sbr * ca,
+            0.0, 0.0, 1.0 / c]
+
+
+def _b_generic(rng, kap):
+    d = _lengths(rng, kap)
+    o1, o2 = ([float(c) for c in quat_matrix(_float_quat(rng))] for _ in range(2))
+    return mm(o1, [d[i] * o2[3 * i + j] for i in range(3) for j in range(3)])
+
+
+def _float_quat(rng):
+    while True:
+        v = [rng.gauss(0, 1) for _ in range(4)]
+        n = math.sqrt(sum(c * c for c in v))
+        if n > 1e-3:
+            return [c / n for c in v]
+
+
+def apply_hand(rng, M, hand):
+    M = list(M)
+    if hand == 'cyclic':
+        s = rng.choice([1, 2])
+        return [M[3 * i + (j + s) % 3] for i in range(3) for j in range(3)]
+    if hand == 'swap':
+        a, b = rng.sample(range(3), 2)
+        p = {a: b, b: a}
+        return [M[3 * i + p.get(j, j)] for i in range(3) for j in range(3)]
+    if hand == 'invert':
+        a = rng.randrange(3)
+        return [-M[3 * i + j] if j == a else M[3 * i + j] for i in range(3) for j in range(3)]
+    if hand == 'negate':
+        return [-c for c in M]
+    if hand == 'row-swap':
+        a, b = rng.sample(range(3), 2)
+        p = {a: b, b: a}
+        return [M[3 * p.get(i, i) + j] for i in range(3) for j in range(3)]
+    return M
+
+
+def det_sign(M):
+    a = [Fraction(c) for c in M]
+    d = a[0] * (a[4] * a[8] - a[5] * a[7]) - a[1] * (a[3] * a[8] - a[5] * a[6]) + a[2] * (a[3] * a[7] - a[4] * a[6])
+    return (d > 0) - (d < 0)
+
+
+def b_matrix(rng, kind=None, hand=None, kap=None):
+    """-> 9 entries (row-major floats), target condition number, class 'kind/hand/det<0|det>0'"""
+    kap = kap or rng.choice(KAPPAS)
+    kind = kind or rng.choice(B_KINDS)
+    hand = hand or rng.choices(B_HANDS, weights=B_HAND_WEIGHTS)[0]
+    M = {'diag': _b_diag, 'busing-levy': _b_busing_levy, 'generic': _b_generic}[kind](rng, kap)
+    M = [float(c) + 0.0 for c in apply_hand(rng, M, hand)]
+    return M, kap, f'{kind}/{hand}/det{"<" if det_sign(M) < 0 else ">"}0'
+
+
+def b_array(rng, n):
+    """n B matrices (one per pixel) mixing both signs of the determinant"""
+    bs = [b_matrix(rng) for _ in range(n)]
+    if len({c.rsplit('/', 1)[1] for _, _, c in bs}) == 1:        # all of one handedness: mirror one of them
+        i = rng.randrange(n)
+        M, kap, c = bs[i]
+        kind = c.split('/')[0]
+        M = apply_hand(rng, M, 'swap')
+        bs[i] = (M, kap, f'{kind}/swap-again/det{"<" if det_sign(M) < 0 else ">"}0')
+    return bs
 
 
 def rand_unit(rng):
@@ -136,6 +240,14 @@ def scattered(rng, u):
     return [L * (math.cos(al) * a + math.sin(al) * b) for a, b in zip(u, w)]
 
 
+def b_spec(bs, unit, dim=None):
+    """the group entries for one B (0-d) or an array of B matrices (one per pixel, dim 'p'); bs = [(entries, kappa, class)]"""
+    if len(bs) > 1 or dim:
+        return {'B': {'values': [[hexf(c) for c in M] for M, _, _ in bs], 'unit': unit, 'dim': 'p'},
+                'kappa_target': max(k for _, k, _ in bs), 'B_class': [c for _, _, c in bs]}
+    return {'B': {'values': [hexf(c) for c in bs[0][0]], 'unit': unit}, 'kappa_target': bs[0][1], 'B_class': [bs[0][2]]}
+
+
 def vop(vecs, unit, dim):
     return {'values': [[hexf(c) for c in v] for v in vecs], 'unit': unit, 'dtype': 'vector3', 'dim': dim}
 
@@ -156,17 +268,53 @@ def gen_groups(rng, n, npix=5):
         else:
             wvals = [hexf(v) for v in wl]
         R, _ = rot_spec(rng, rng.choice([None, None, 'p']), npix)
-        Um, _ = rot_spec(rng)
-        B, kap = b_matrix(rng)
+        Um, _ = rot_spec(rng, rng.choice([None, None, None, None, 'p']), npix)     # one U per pixel: 1 group in 5
         g = {'id': i,
              'wavelength': {'values': wvals, 'unit': wu[0], 'dtype': wdt, 'dim': wdim},
              'incident_beam': vop([bi], rng.choice(LUNITS), None),
              'scattered_beam': vop(bfs, rng.choice(LUNITS), 'p'),
-             'R': R, 'U': Um, 'B': {'values': [hexf(c) for c in B], 'unit': '1/angstrom'}, 'kappa_target': kap}
+             'R': R, 'U': Um}
+        g.update(b_spec(b_array(rng, npix) if rng.random() < 0.2 else [b_matrix(rng)], '1/angstrom'))   # one B per pixel: 1 in 5
         if rng.random() < 0.25:    # hkl of arbitrary Q vectors rather than of the computed ones
             g['Q'] = vop([[rng.uniform(-10, 10) for _ in range(3)] for _ in range(npix)], '1/angstrom', 'p')
         groups.append(g)
     return groups
+
+
+SWEEP_ID0 = 5000
+
+
+def gen_matrix_sweep(rng, kappas, id0=SWEEP_ID0):
+    """every B kind x hand once per given condition number (None: a random one of KAPPAS): 2 pixels; B 0-d or (1 in 3) one B per
+    pixel - the right-handed matrix of that kind first, the re-labelled / mirrored one second; B in any of BUNITS; U as
+    rotation3 or matrix, 0-d or per pixel; hkl of the computed or of explicit Q vectors"""
+    out = []
+    for kind in B_KINDS:
+        for hand in B_HANDS:
+            for kap in kappas:
+                g = gen_groups(rng, 1, npix=2)[0]
+                k_ = kap or rng.choice(KAPPAS)
+                bs = [b_matrix(rng, kind, hand, k_)]
+                if rng.random() < 1 / 3:
+                    bs = [b_matrix(rng, kind, 'right', k_)] + bs
+                g.update(b_spec(bs, rng.choice(BUNITS)), id=id0 + len(out), sweep=True)
+                out.append(g)
+    return out
+
+
+def class_counts(groups):
+    """coverage of the B classes actually generated: per kind/hand/sign, per sign of det(B), arrays of B / of U"""
+    cls, sign = {}, {'det>0': 0, 'det<0': 0}
+    for g in groups:
+        for c in g.get('B_class') or []:
+            cls[c] = cls.get(c, 0) + 1
+            sign[c.rsplit('/', 1)[1]] += 1
+    mixed = sum(1 for g in groups if len({c.rsplit('/', 1)[1] for c in g.get('B_class') or []}) == 2)
+    return {'B_classes': dict(sorted(cls.items())), 'B_det_sign': sign,
+            'groups_with_B_per_pixel': sum(1 for g in groups if g['B'].get('dim')), 'of_them_mixing_both_signs': mixed,
+            'groups_with_U_per_pixel': sum(1 for g in groups if g['U'].get('dim')),
+            'left_handed_with_kappa>=1e4': sum(1 for g in groups if g.get('kappa_target', 0) >= 1e4
+                                               and any(c.endswith('det<0') for c in g.get('B_class') or []))}
 
 
 # ------------------------------------------------------------------ call histories
@@ -180,7 +328,7 @@ def gen_groups(rng, n, npix=5):
 BUNITS = ['dimensionless', '1/angstrom', '1/nm']
 QUNITS = ['1/angstrom', '1/nm']
 HIST_AXES = [('B_unit', 5), ('w_unit', 4), ('w_dtype', 3), ('w_dim', 1), ('bi_unit', 1), ('bf_unit', 1), ('npix', 1),
-             ('R_kind', 1), ('R_dim', 1), ('U_kind', 1), ('Q_unit', 3), ('Q_src', 2)]
+             ('R_kind', 1), ('R_dim', 1), ('U_kind', 1), ('U_dim', 1), ('B_dim', 1), ('Q_unit', 3), ('Q_src', 2)]
 HIST_ID0 = 1000
 
 
@@ -198,20 +346,20 @@ def rot_of(qs, kind, dim):
 
 def hist_base(rng, npix=3):
     u = rand_unit(rng)
-    B, kap = b_matrix(rng)
+    Bs = b_array(rng, npix)     # the 0-d B of a step is the first of them (either handedness), a per-pixel B a prefix
     if rng.random() < 0.5:      # numbers every numeric dtype stores exactly
         wl, dtypes = [rng.randint(1, 10) for _ in range(npix)], ['float64', 'float32', 'int64']
     else:                       # numbers float32 and float64 store exactly; n angstrom and n nm both within 0.01..100 angstrom
         wl, dtypes = [f32_exact(loguniform(rng, 0.01, 10)) for _ in range(npix)], ['float64', 'float32']
     return {'bi': [c * loguniform(rng, 1e-3, 1e3) for c in u], 'bfs': [scattered(rng, u) for _ in range(npix)],
-            'wl': wl, 'dtypes': dtypes, 'Rq': [rand_quat(rng) for _ in range(npix)], 'Uq': [rand_quat(rng)],
-            'B': B, 'kap': kap, 'Qnum': [[rng.uniform(-10, 10) for _ in range(3)] for _ in range(npix)], 'npix': npix}
+            'wl': wl, 'dtypes': dtypes, 'Rq': [rand_quat(rng) for _ in range(npix)], 'Uq': [rand_quat(rng) for _ in range(npix)],
+            'Bs': Bs, 'Qnum': [[rng.uniform(-10, 10) for _ in range(3)] for _ in range(npix)], 'npix': npix}
 
 
 def hist_choices(base):
     return {'B_unit': BUNITS, 'w_unit': [w for w, _ in WUNITS], 'w_dtype': base['dtypes'], 'w_dim': [None, 'p'],
             'bi_unit': LUNITS, 'bf_unit': LUNITS, 'npix': [base['npix'] - 1, base['npix']], 'R_kind': ['quat', 'matrix'],
-            'R_dim': [None, 'p'], 'U_kind': ['quat', 'matrix'], 'Q_unit': QUNITS, 'Q_src': ['computed', 'explicit']}
+            'R_dim': [None, 'p'], 'U_kind': ['quat', 'matrix'], 'U_dim': [None, 'p'], 'B_dim': [None, 'p'], 'Q_unit': QUNITS, 'Q_src': ['computed', 'explicit']}
 
 
 def hist_group(base, cfg, gid, hid, step, changed):
@@ -222,8 +370,8 @@ def hist_group(base, cfg, gid, hid, step, changed):
          'wavelength': {'values': wvals, 'unit': cfg['w_unit'], 'dtype': cfg['w_dtype'], 'dim': cfg['w_dim']},
          'incident_beam': vop([base['bi']], cfg['bi_unit'], None),
          'scattered_beam': vop(base['bfs'][:n], cfg['bf_unit'], 'p'),
-         'R': rot_of(base['Rq'][:n], cfg['R_kind'], cfg['R_dim']), 'U': rot_of(base['Uq'], cfg['U_kind'], None),
-         'B': {'values': [hexf(c) for c in base['B']], 'unit': cfg['B_unit']}, 'kappa_target': base['kap']}
+         'R': rot_of(base['Rq'][:n], cfg['R_kind'], cfg['R_dim']), 'U': rot_of(base['Uq'][:n], cfg['U_kind'], cfg['U_dim'])}
+    g.update(b_spec(base['Bs'][:n] if cfg['B_dim'] else base['Bs'][:1], cfg['B_unit'], cfg['B_dim']))
     if cfg['Q_src'] == 'explicit':
         g['Q'] = vop(base['Qnum'][:n], cfg['Q_unit'], 'p')
     return g
@@ -275,6 +423,11 @@ def fr(pair):
 
 def pick(st, k):
     return st['values'][k if len(st['values']) > 1 else 0]
+
+
+def pick_class(g, k):
+    c = g.get('B_class') or [None]
+    return c[k if len(c) > 1 else 0]
 
 
 def vin_term(st, k):
@@ -343,10 +496,10 @@ def cases_of(g, r, pixels=None, norm=True):
             ot = kcorr.out_term(r['hkl'], k)
             if ot and not any(isinstance(c, str) for c in pick(qsrc, k)):
                 qt = vin_term(qsrc, k)
-                out.append((f'(KHkl {qt} {min_term(ops["U"], 0)} {min_term(ops["B"], 0)} {min_term(ops["R"], k)} {ot} (64 # 1))',
+                out.append((f'(KHkl {qt} {min_term(ops["U"], k)} {min_term(ops["B"], k)} {min_term(ops["R"], k)} {ot} (64 # 1))',
                             dict(base, kernel='hkl_vec_from_Q_vec', Q=[float(fr(c)) for c in pick(qsrc, k)],
-                                 R=[float(fr(c)) for c in pick(ops['R'], k)], U=[float(fr(c)) for c in pick(ops['U'], 0)],
-                                 B=[float(fr(c)) for c in pick(ops['B'], 0)], kappa_target=g.get('kappa_target'),
+                                 R=[float(fr(c)) for c in pick(ops['R'], k)], U=[float(fr(c)) for c in pick(ops['U'], k)],
+                                 B=[float(fr(c)) for c in pick(ops['B'], k)], B_class=pick_class(g, k), kappa_target=g.get('kappa_target'),
                                  impl=kcorr.fmt(r['hkl']['values'][k]))))
             if ok(r, 'hkl_el') and ok(r, 'rejoined'):
                 hv = r['hkl']['values'][k]
@@ -359,18 +512,30 @@ def cases_of(g, r, pixels=None, norm=True):
                                 dict(base, kernel='hkl_elements_from_hkl_vec / Q_vec_from_Q_elements',
                                      impl={'hkl': kcorr.fmt(hv), 'units': [u['name'] for u in us]})))
         elif 'hkl' in r:
-            out.append((f'(KHkl {vin_term(ops["Q"] if "Q" in ops else r["Qvec"], k)} {min_term(ops["U"], 0)} {min_term(ops["B"], 0)} '
+            out.append((f'(KHkl {vin_term(ops["Q"] if "Q" in ops else r["Qvec"], k)} {min_term(ops["U"], k)} {min_term(ops["B"], k)} '
                         f'{min_term(ops["R"], k)} (OutErr "{r["hkl"]["error"]}") (64 # 1))',
-                        dict(base, kernel='hkl_vec_from_Q_vec', impl='raises ' + r['hkl']['error'])))
+                        dict(base, kernel='hkl_vec_from_Q_vec', B=[float(fr(c)) for c in pick(ops['B'], k)], B_class=pick_class(g, k),
+                             impl='raises ' + r['hkl']['error'])))
+    # UB = U*B: one matrix when U and B are 0-d, one per pixel when either is an array
+    n_ub = max(len(ops['U']['values']), len(ops['B']['values']))
+    ks = range(n_ub) if pixels is None else [k_ for k_ in pixels if k_ < n_ub]
     if ok(r, 'UB'):
         ub = r['UB']
-        vals = '[' + '; '.join(q(c) for c in ub['values'][0]) + ']'
-        out.append((f'(KUB {min_term(ops["U"], 0)} {min_term(ops["B"], 0)} {vals} {q(ub["unit"]["mult"])} {dims_term(ub["unit"]["dims"])} (4 # 1000000000000000))',
-                    {'group': g['id'], 'kernel': 'ub_matrix_from_u_and_b', 'U': [float(fr(c)) for c in pick(ops['U'], 0)],
-                     'B': [float(fr(c)) for c in pick(ops['B'], 0)], 'impl': [float(fr(c)) for c in ub['values'][0]]}))
+        for k in ks:
+            desc = {'group': g['id'], 'element': k, 'kernel': 'ub_matrix_from_u_and_b', 'U': [float(fr(c)) for c in pick(ops['U'], k)],
+                    'B': [float(fr(c)) for c in pick(ops['B'], k)], 'B_class': pick_class(g, k)}
+            if len(ub['values']) != n_ub:       # the model's answer exists, the implementation's has another shape
+                out.append((f'(KUB {min_term(ops["U"], k)} {min_term(ops["B"], k)} [] 1 [] 0)',
+                            dict(desc, impl=f'{len(ub["values"])} matrices for {n_ub} operand elements')))
+                continue
+            vals = '[' + '; '.join(q(c) for c in ub['values'][k]) + ']'
+            out.append((f'(KUB {min_term(ops["U"], k)} {min_term(ops["B"], k)} {vals} {q(ub["unit"]["mult"])} {dims_term(ub["unit"]["dims"])} (4 # 1000000000000000))',
+                        dict(desc, impl=[float(fr(c)) for c in ub['values'][k]])))
     elif 'UB' in r:
-        out.append((f'(KUB {min_term(ops["U"], 0)} {min_term(ops["B"], 0)} [] 1 [] 0)',
-                    {'group': g['id'], 'kernel': 'ub_matrix_from_u_and_b', 'impl': 'raises ' + r['UB']['error']}))
+        for k in ks:
+            out.append((f'(KUBErr {min_term(ops["U"], k)} {min_term(ops["B"], k)} "{r["UB"]["error"]}")',
+                        {'group': g['id'], 'element': k, 'kernel': 'ub_matrix_from_u_and_b', 'U': [float(fr(c)) for c in pick(ops['U'], k)],
+                         'B': [float(fr(c)) for c in pick(ops['B'], k)], 'B_class': pick_class(g, k), 'impl': 'raises ' + r['UB']['error']}))
     return out
 
 
@@ -388,8 +553,12 @@ def mv(a, v):
     return [sum(a[3 * i + t] * v[t] for t in range(3)) for i in range(3)]
 
 
+def det9(a):
+    return a[0] * (a[4] * a[8] - a[5] * a[7]) - a[1] * (a[3] * a[8] - a[5] * a[6]) + a[2] * (a[3] * a[7] - a[4] * a[6])
+
+
 def kappa_inf(a):
-    det = (a[0] * (a[4] * a[8] - a[5] * a[7]) - a[1] * (a[3] * a[8] - a[5] * a[6]) + a[2] * (a[3] * a[7] - a[4] * a[6]))
+    det = det9(a)
     if det == 0:
         return None
     adj = [a[4] * a[8] - a[5] * a[7], a[2] * a[7] - a[1] * a[8], a[1] * a[5] - a[2] * a[4],
@@ -435,6 +604,10 @@ def statement_checks(ctx, groups, res, found):
         for key in ('Qel', 'Qvec', 'UB', 'hkl', 'hkl_el', 'rejoined'):
             if key in r and 'error' in r[key]:
                 d = dict(where, kernel=key, error=r[key]['error'], text=r[key].get('error_text'))
+                if key in ('UB', 'hkl'):
+                    d.update(B=[[float(fr(c)) for c in v] for v in ops['B']['values']], B_class=g.get('B_class'), B_unit=ops['B']['unit']['name'],
+                             det_B=[float(det9([fr(c) for c in v])) for v in ops['B']['values']],
+                             U=[[float(fr(c)) for c in v] for v in ops['U']['values']])
                 ctx.violation(f'{key}:raises-{r[key]["error"]}', f'{key} raises {r[key]["error"]} on valid operands: {d}', {'case': d, 'group': g})
                 found.append(d)
         # ---- units (dimension; the multipliers enter the value comparisons below)
@@ -501,7 +674,7 @@ def statement_checks(ctx, groups, res, found):
                 qsrc = ops['Q'] if 'Q' in ops else r.get('Qvec')
                 if qsrc is None or any(isinstance(c, str) for c in list(hv) + list(pick(qsrc, k))):
                     continue
-                A = mm(mat_entries(ops['R'], k), mm(mat_entries(ops['U'], 0), mat_entries(ops['B'], 0)))
+                A = mm(mat_entries(ops['R'], k), mm(mat_entries(ops['U'], k), mat_entries(ops['B'], k)))
                 kap = kappa_inf(A)
                 if kap is None:
                     continue
@@ -514,7 +687,8 @@ def statement_checks(ctx, groups, res, found):
                     d = dict(where, kernel='hkl_vec_from_Q_vec', residual=[float(c) for c in resid], bound=float(bound), kappa_inf=float(kap),
                              Q=[float(c) for c in qq], hkl=[float(c) for c in hq], hkl_unit=r['hkl']['unit']['name'],
                              Q_unit=qsrc['unit']['name'], B_unit=ops['B']['unit']['name'], R=[float(fr(c)) for c in pick(ops['R'], k)],
-                             U=[float(fr(c)) for c in pick(ops['U'], 0)], B=[float(fr(c)) for c in pick(ops['B'], 0)])
+                             U=[float(fr(c)) for c in pick(ops['U'], k)], B=[float(fr(c)) for c in pick(ops['B'], k)],
+                             B_class=pick_class(g, k), pixel=k)
                     ctx.violation('hkl_vec_from_Q_vec:residual' + ('-kappa>=1e4' if kap >= 10000 else ''),
                                   f'2 pi R UB hkl - Q = {d["residual"]} exceeds 64 kappa u |Q| = {d["bound"]} (kappa_inf = {float(kap):.3g})',
                                   {'case': d, 'group': g})
@@ -535,15 +709,25 @@ def statement_checks(ctx, groups, res, found):
                         found.append(d)
         if ok(r, 'UB'):
             sU, sB = fr(ops['U']['unit']['mult']), fr(ops['B']['unit']['mult'])
-            want = [c * sU * sB for c in mm(mat_entries(ops['U'], 0), mat_entries(ops['B'], 0))]
-            got = [fr(c) * fr(r['UB']['unit']['mult']) for c in r['UB']['values'][0]]
-            sc_ = max(abs(c) for c in want) or 1
-            if any(abs(a - b) > Fraction(1, 10 ** 14) * sc_ for a, b in zip(got, want)) or \
-                    list(r['UB']['unit']['dims']) != dsum(ops['U']['unit']['dims'], ops['B']['unit']['dims']):
-                d = dict(where, kernel='ub_matrix_from_u_and_b', got=[float(c) for c in got], UB_unit=r['UB']['unit']['name'],
-                         want=[float(c) for c in want], U_unit=ops['U']['unit']['name'], B_unit=ops['B']['unit']['name'])
-                ctx.violation('UB:product', f'UB is not U*B (numbers in base units, or unit): {d}', {'case': d, 'group': g})
+            n_ub = max(len(ops['U']['values']), len(ops['B']['values']))
+            if len(r['UB']['values']) != n_ub:
+                d = dict(where, kernel='ub_matrix_from_u_and_b', returned_matrices=len(r['UB']['values']), operand_elements=n_ub,
+                         U_dims=ops['U'].get('dims'), B_dims=ops['B'].get('dims'), UB_dims=r['UB'].get('dims'))
+                ctx.violation('UB:shape', f'UB does not hold one product U*B per element of the operands: {d}', {'case': d, 'group': g})
                 found.append(d)
+                continue
+            for k in range(n_ub):
+                want = [c * sU * sB for c in mm(mat_entries(ops['U'], k), mat_entries(ops['B'], k))]
+                got = [fr(c) * fr(r['UB']['unit']['mult']) for c in r['UB']['values'][k]]
+                sc_ = max(abs(c) for c in want) or 1
+                if any(abs(a - b) > Fraction(1, 10 ** 14) * sc_ for a, b in zip(got, want)) or \
+                        list(r['UB']['unit']['dims']) != dsum(ops['U']['unit']['dims'], ops['B']['unit']['dims']):
+                    d = dict(where, kernel='ub_matrix_from_u_and_b', element=k, got=[float(c) for c in got], UB_unit=r['UB']['unit']['name'],
+                             want=[float(c) for c in want], U_unit=ops['U']['unit']['name'], B_unit=ops['B']['unit']['name'],
+                             U=[float(fr(c)) for c in pick(ops['U'], k)], B=[float(fr(c)) for c in pick(ops['B'], k)], B_class=pick_class(g, k))
+                    ctx.violation('UB:product', f'UB is not U*B (numbers in base units, or unit): {d}', {'case': d, 'group': g})
+                    found.append(d)
+                    break
 
 
 def invariance_checks(ctx, rng, n, found):
@@ -718,6 +902,8 @@ def correspondence(ctx):
     rng = random.Random(ctx.seed)
     quick = ctx.tier == 'quick'
     groups = gen_groups(rng, 60 if quick else 700)
+    # every B kind x handedness on every run (quick: one condition number each; thorough: four), independent generator state
+    groups += gen_matrix_sweep(random.Random(ctx.seed * 104729 + 17), [None] if quick else [1.0, 1e2, 1e4, 1e6])
     # call histories, executed in the same process AFTER the independent groups (their ids start at HIST_ID0)
     hrng = random.Random(ctx.seed * 7919 + 5)
     order, by_hist = gen_histories(hrng, 8 if quick else 40, 7 if quick else 10)
@@ -733,7 +919,9 @@ def correspondence(ctx):
             ctx.note('harness could not build a group: ' + r['build_error'])
             continue
         mutated += not r.get('inputs_unchanged', True)
-        for t, d in cases_of(g, r):
+        # sweep groups: both pixels when B or U differ per pixel, else the first (the matrices are the same for both)
+        px = [0] if g.get('sweep') and not (g['B'].get('dim') or g['U'].get('dim')) else None
+        for t, d in cases_of(g, r, pixels=px, norm=not g.get('sweep')):
             terms.append(t)
             descs.append(d)
     n_plain = len(terms)
@@ -777,11 +965,15 @@ def correspondence(ctx):
         'rule': 'per group: wavelength 0.01..100 angstrom (angstrom/nm; float64/float32/int64; scalar or per-pixel), incident beam scalar, 5 scattered '
                 'beams per pixel at uniform and near-degenerate angles ({0,pi/2,pi} +- {0,1e-12..1e-3}), beams in m/mm with lengths 1e-3..1e3; '
                 'R and U from exact rational unit quaternions (as rotation3 or as 3x3 linear_transform; R scalar or per-pixel), '
-                'B = diag*(I+N) with condition numbers 1..1e6 in 1/angstrom; hkl of the computed Q vectors or of random Q; '
+                'U 0-d or (1 in 5) one per pixel; B of EITHER handedness, condition numbers 1..1e6, in 1/angstrom: kind diag*(I+N) / Busing-Levy B of a '
+                'triclinic cell (angles 60..120 deg) / dense O1*diag*O2, then as made / columns cyclically permuted (det > 0) or two columns '
+                'swapped / one column negated / -B / two rows swapped (det < 0; weights 4:1:2:2:1:1), 0-d or (1 in 5) one B per pixel '
+                'mixing both signs of det; plus a sweep with every kind x hand once (2 pixels, B in 1/angstrom / 1/nm / dimensionless, 1 in 3 '
+                'as the pair [right-handed, mirrored] per pixel); hkl of the computed Q vectors or of random Q; '
                 'non-trivial = a finite result was produced; plus rescaling (2^k, 3, 0.1) and rotation (incl. improper) of the beams; '
                 'plus CALL HISTORIES in the same process: the same numbers re-used step by step with another unit (UB dimensionless, 1/angstrom, '
                 '1/nm; wavelength angstrom, nm; beams m, mm; explicit Q 1/angstrom, 1/nm), dtype (float64/float32/int64), shape (scalar / '
-                'per-pixel wavelength and R, 2 or 3 pixels), storage (rotation3 / matrix) and Q source; consecutive steps differ in one '
+                'per-pixel wavelength, R, U and B (the 0-d B is the first of the per-pixel ones, which mix both signs of det), 2 or 3 pixels), storage (rotation3 / matrix) and Q source; consecutive steps differ in one '
                 '(15%: two) axes, 15% of the steps repeat an earlier step exactly, half of the histories run interleaved in pairs; all five '
                 'kernels are called on every step and every step is compared with the model (first pixel) and with the statement (all pixels, '
                 'value and unit); every group and step is ALSO evaluated through the graph entry points graph.tof.elastic_Q_vec / elastic_hkl '
@@ -790,6 +982,8 @@ def correspondence(ctx):
                 'group is re-run alone and after its predecessors in fresh processes',
         'samples': descs[:2] + descs[n_plain // 2:n_plain // 2 + 2] + descs[n_plain:n_plain + 1] + descs[-1:],
         'per_kernel': kinds, 'kappa_targets': kaps, 'invariance_checks': n_inv,
+        'B_matrices': dict(class_counts(groups + order), kinds=B_KINDS, hands=B_HANDS,
+                           sweep_groups=sum(1 for g in groups if g.get('sweep'))),
         'graph_entry_points': {'groups': sum(1 for r in all_res if isinstance(r.get('graph'), dict)),
                                'customisations': {str(k): sum(1 for g in groups + order if g['graph']['customise'] == k) for k in set(GRAPH_CUSTOM)},
                                'start': {k: sum(1 for g in groups + order if g['graph']['start'] == k) for k in ('wavelength', 'tof')},
@@ -808,6 +1002,8 @@ def search(ctx, broken):
     found = []
     order, by_hist = gen_histories(rng, 24, 10)
     groups = gen_groups(rng, 40)
+    # every B kind x handedness x condition number 1, 1e2, 1e4, 1e6, 0-d and per pixel (no Coq here: the statement is cheap)
+    groups += gen_matrix_sweep(rng, [1.0, 1e2, 1e4, 1e6])
     add_graph_specs(groups + order, rng)
     res = ctx.run_impl('c08_impl.py', {'groups': groups + order})
     history_checks(ctx, groups + order, res['groups'], by_hist, found)
